@@ -81,6 +81,8 @@ from xdsl.traits import (
     HasParent,
     IsolatedFromAbove,
     IsTerminator,
+    MemoryReadEffect,
+    MemoryWriteEffect,
     NoMemoryEffect,
     NoTerminator,
     RecursiveMemoryEffect,
@@ -4742,6 +4744,10 @@ class AtomicUpdateOp(IRDLOperation):
         lambda: (
             SingleBlockImplicitTerminator(YieldOp),
             RecursiveMemoryEffect(),
+            # the update reads and writes the location `x` (upstream: `[MemRead, MemWrite]`
+            # on the operand); without these the op is trivially dead when its body is pure
+            MemoryReadEffect(),
+            MemoryWriteEffect(),
         )
     )
 
